@@ -1,7 +1,8 @@
 --------------------------- MODULE Trace_JsonPrint ---------------------------
 (* Trace validation for C11.  One event per run of the real `succinctly jq`:  *)
 (*   o    option vector (JsonPrint.OptSpace)                                  *)
-(*   in   the input documents (trees, duplicates kept, source order)          *)
+(*   in   the input documents (trees as flat preorder lists, see JsonPrint;   *)
+(*        duplicates kept, source order)                                      *)
 (*   out  what an independent strict JSON reader found on stdout: one frame   *)
 (*        per printed value [pre, v, post] (pre/post = raw framing bytes)     *)
 (*   r    number of frames that held one well-formed JSON value               *)
@@ -13,17 +14,19 @@ EXTENDS TraceBase, JsonPrint
 
 VARIABLES l
 
-FrameOK(f, tree, o) ==
+FrameOK(f, flatin, o) ==
   /\ f.pre = Pre(o)
   /\ f.post = Post(o)
-  /\ f.v = ExpectedValue(tree, o)
-  /\ (o.S = 1 => AllSorted(f.v))
-  /\ NoDup(f.v)
+  /\ WellFormedFlat(f.v) /\ WellFormedFlat(flatin)
+  /\ LET v == FTree(f.v)
+     IN /\ v = ExpectedValue(FTree(flatin), o)
+        /\ (o.S = 1 => AllSorted(v))
+        /\ NoDup(v)
 
 Case(e) ==
   /\ e.e = "case"
   /\ e.o \in OptSpace
-  /\ \A i \in 1..Len(e.in) : InScope(e.in[i], e.o)
+  /\ \A i \in 1..Len(e.in) : InScope(e.in[i][1], e.o)
   /\ e.rc = 0
   /\ e.r = Len(e.in)
   /\ Len(e.out) = Len(e.in)
